@@ -370,6 +370,30 @@ func TestC17ReadBack(t *testing.T) {
 				soft, wrapped = ns, nw
 				model = map[string]any{"id": ""}
 			},
+			"TypeNew": func(t *rapid.T) {
+				// The type a resource reports makes fresh resources: that
+				// type's name and fields, all zero values, whatever the
+				// resource holds at the moment.
+				history = append(history, "GetType().New()")
+
+				for _, it := range []struct {
+					res  jsonapi.Resource
+					impl string
+				}{{soft, "soft"}, {wrapped, "wrapped"}} {
+					var fresh jsonapi.Resource
+
+					if p := oracle.Try(func() {
+						typ := it.res.GetType()
+						fresh = typ.New()
+					}); p != nil {
+						t.Fatalf("C17 violated: GetType().New() %s\nhistory: %s", p, strings.Join(history, "; "))
+					}
+
+					if msg := readBack(&ts, map[string]any{"id": ""}, fresh, "fresh resource of the "+it.impl+" resource's type"); msg != "" {
+						t.Fatalf("C17 violated: %s\ntype: %s\nhistory: %s", msg, ts, strings.Join(history, "; "))
+					}
+				}
+			},
 			"Equal": func(t *rapid.T) {
 				// The equality helpers only read: whatever they answer, every
 				// field still reads as the value most recently set.
